@@ -38,7 +38,13 @@ LEVEL_TEXT = ("Proof: four children partition their parent (half-open, west/sout
               "every strict ancestor of a listed cell held more than threshold events, and every event of the domain has a cell. "
               "Coverage of ARBITRARY prefix-free key lists (from_quadkeys, key files) is decided by a theorem: such a list covers the "
               "domain iff sum 4^-len(key) = 1 (Kraft's equality; counting the keys of the deepest level, double counting, no size bound), "
-              "it is then a partition and _find_location finds a cell exactly for the points of the domain; sum <= 1 always.")
+              "it is then a partition and _find_location finds a cell exactly for the points of the domain; sum <= 1 always. "
+              "The float box test of the code (lon >= west and lat >= south and lon < east and lat < north against mercantile's "
+              "bounds) is PROVED to be the model's tile membership for every tile of depth <= D from the finite, strictly decreasing "
+              "edge-latitude table of depth D and the row placement of the point's latitude (box_test_iff_inTile, find_location_float); "
+              "with it the hypothesis `hin` of the source tie of _create_tile is discharged (SrcSM.create_tile_eq_model_mercantile). "
+              "Builds are run under a structural work bound computed from the model's tile count (a runaway refinement is cut off and "
+              "reported with its input).")
 LEVEL_NOTE = ("Theorems about the latitude are over the reals; the float evaluation of pi*x, sinh, atan, degrees by libm is not "
               "modelled beyond determinism (the float latitude of an edge is proved to depend on the dyadic coordinate only; "
               "strict monotonicity of the float edge table is re-checked every run; the Lean Float transcription of the formula "
@@ -82,14 +88,19 @@ THEOREMS = ["Quadtree.geo_membership", "Quadtree.lon_bounds_exact", "Quadtree.ro
             "QuadGridding.from_catalog_self_split_needed", "QuadGridding.from_catalog_self_all_located_iff",
             # coverage of ARBITRARY prefix-free key lists: Kraft's equality (Properties/C17_Cover.lean)
             "Quadtree.prefix_free_cover_iff_kraft", "Quadtree.kraft_le_one", "Quadtree.prefix_free_cover_iff_kraft_rat",
-            "Quadtree.prefix_free_partition_of_kraft", "Quadtree.locate_total_of_kraft"]
+            "Quadtree.prefix_free_partition_of_kraft", "Quadtree.locate_total_of_kraft",
+            # the code's float box test against mercantile's bounds is the model's membership (Properties/C17_Box.lean)
+            "Quadtree.placed_consistent", "Quadtree.edge_indices", "Quadtree.box_test_iff_inTile", "Quadtree.find_location_float"]
 TRUSTED = ["Lean 4.33 kernel", "axioms: propext, Classical.choice, Quot.sound at most",
            "mercantile 1.2.1: quadkey_to_tile is the bit interleaving modelled by tileX/tileY; bounds().west/east equal "
            "-180+360*X/2^z exactly (checked on every tile of every generated grid); the latitude of a tile edge depends on "
            "Y/2^z only, is strictly decreasing in it (checked on every generated edge table) and is bit-identical between "
            "zoom levels (checked)",
            "the latitude of a point enters the model as the deepest-level row it falls in, computed by the harness with "
-           "float comparisons against mercantile.bounds edges (the same comparisons the library makes)",
+           "float comparisons against mercantile.bounds edges (the same comparisons the library makes); that this placement makes "
+           "the code's four float comparisons against a tile's bounds equal the model's membership is no longer trusted: theorem "
+           "box_test_iff_inTile from (i) the strictly decreasing edge table (re-checked every run), (ii) bounds = exact dyadic "
+           "longitudes + table entries (checked on every tile), (iii) the row the harness computed (E[r+1] <= lat < E[r])",
            "numpy comparison / logical_and / where semantics", "Float tanh/π for the model-side area (compared at 1e-9)",
            "libm cos / sinh / atan behind Lean's Float and numpy / math (code-shaped Float area compared at 1e-9 relative plus a "
            "cancellation-aware absolute term; Mercator bounds compared exactly in longitude, 1e-12 in latitude, bit-exact count "
@@ -227,6 +238,74 @@ class Grid:
         self.D = max([len(k) for k in self.keys] + [1])
 
 
+class Runaway(Exception):
+    """the implementation was cut off: it did far more work than the refinement rule allows for this input"""
+
+
+def expected_refinement(thr, zoom, ev):
+    """what the refinement RULE (the model `Quadtree.fromCatalog`: split while count > threshold and depth < zoom, four roots)
+    creates for these epicentres: (number of leaves, number of visited tiles = leaves + split tiles). Exact: events are placed by
+    their deepest-level key, counts are prefix counts."""
+    D = max(zoom, 1)
+    cnt = {}
+    for lo, la in ev:
+        d = unit_key(*to_unit(lo, la, D), D)
+        if d is not None:
+            for L in range(1, len(d) + 1):
+                cnt[d[:L]] = cnt.get(d[:L], 0) + 1
+    leaves = nodes = 0
+    stack = ["0", "1", "2", "3"]
+    while stack:
+        k = stack.pop()
+        nodes += 1
+        if cnt.get(k, 0) > thr and len(k) < zoom:
+            stack += [k + c for c in "0123"]
+        else:
+            leaves += 1
+    return leaves, nodes
+
+
+import contextlib
+
+
+@contextlib.contextmanager
+def bounded_work(nodes, leaves, what):
+    """Run a builder of the tree under test with a STRUCTURAL bound on its work, derived from what the model says the correct code
+    creates (`nodes` visited tiles, `leaves` cells): every `mercantile.bounds` call is counted (the current code makes one per
+    visited tile and four per cell) and the build is cut off — `Runaway` — beyond 4x that number (+2000); as a second line, for a
+    rewrite that does not go through `mercantile.bounds`, a CPU-time timer of the process (ITIMER_VIRTUAL: machine load does not
+    advance it) scaled from the same count, 20x the cost of the current code and never below 15 s."""
+    import signal
+    import threading
+    import mercantile
+    limit = 4 * (nodes + 4 * leaves) + 2000
+    cpu_s = 15.0 + 20 * 2e-4 * (nodes + 4 * leaves)
+    orig = mercantile.bounds
+    calls = [0]
+
+    def counted(*a, **k):
+        calls[0] += 1
+        if calls[0] > limit:
+            raise Runaway(f"{what}: more than {limit} tile-bounds computations where the refinement rule visits {nodes} tiles and "
+                          f"creates {leaves} cells (cut off)")
+        return orig(*a, **k)
+    mercantile.bounds = counted
+    timer = threading.current_thread() is threading.main_thread() and hasattr(signal, "setitimer")
+    if timer:
+        def on_alarm(sig, frame):
+            raise Runaway(f"{what}: not finished after {cpu_s:.0f} s of CPU time where the refinement rule visits {nodes} tiles and "
+                          f"creates {leaves} cells (cut off)")
+        old = signal.signal(signal.SIGVTALRM, on_alarm)
+        signal.setitimer(signal.ITIMER_VIRTUAL, cpu_s)
+    try:
+        yield calls
+    finally:
+        mercantile.bounds = orig
+        if timer:
+            signal.setitimer(signal.ITIMER_VIRTUAL, 0)
+            signal.signal(signal.SIGVTALRM, old)
+
+
 def _build(kind, params):
     """build the region from a replayable description"""
     from csep.core import regions
@@ -235,15 +314,20 @@ def _build(kind, params):
     if params.get("mags"):
         kw = dict(magnitudes=numpy.array([4.0, 5.0, 6.5]), name="c17-named")
     if kind == "single":
-        r = regions.QuadtreeGrid2D.from_single_resolution(params["zoom"], **kw)
+        z = int(params["zoom"])
+        with bounded_work((4 ** (max(z, 1) + 1) - 4) // 3, 4 ** max(z, 1), f"from_single_resolution({z})"):
+            r = regions.QuadtreeGrid2D.from_single_resolution(params["zoom"], **kw)
     elif kind == "catalog":
         ev = [(float.fromhex(a), float.fromhex(b)) for a, b in params["events"]]
         cat = CSEPCatalog(data=[(str(i), 1000 * i, la, lo, 5.0, 4.0) for i, (lo, la) in enumerate(ev)],
                           compute_stats=False)
-        if params["zoom"] is None:            # the documented default zoom=11
-            r = regions.QuadtreeGrid2D.from_catalog(cat, params["threshold"], **kw)
-        else:
-            r = regions.QuadtreeGrid2D.from_catalog(cat, params["threshold"], zoom=params["zoom"], **kw)
+        zoom_eff = 11 if params["zoom"] is None else int(params["zoom"])
+        leaves, nodes = expected_refinement(params["threshold"], zoom_eff, ev)
+        with bounded_work(nodes, leaves, f"from_catalog(threshold={params['threshold']}, zoom={params['zoom']}, {len(ev)} events)"):
+            if params["zoom"] is None:            # the documented default zoom=11
+                r = regions.QuadtreeGrid2D.from_catalog(cat, params["threshold"], **kw)
+            else:
+                r = regions.QuadtreeGrid2D.from_catalog(cat, params["threshold"], zoom=params["zoom"], **kw)
     elif kind == "quadkeys":
         r = regions.QuadtreeGrid2D.from_quadkeys(list(params["keys"]), **kw)
     elif kind == "bigkeys":
@@ -538,11 +622,16 @@ def check_refinement(run, drv, pend, g):
     lat = numpy.array([e[1] for e in ev], dtype=float)
     qk, num = [], []
     try:                              # private helper: used when it is there with this signature, never required
-        for root in "0123":
-            regions._create_tile(root, thr, zoom, lon, lat, qk, num)
+        e_leaves, e_nodes = expected_refinement(thr, zoom, ev)
+        with bounded_work(e_nodes, e_leaves, "_create_tile"):
+            for root in "0123":
+                regions._create_tile(root, thr, zoom, lon, lat, qk, num)
         qk, num = [str(k) for k in qk], [int(v) for v in num]
         if len(qk) != len(num):
             raise ValueError("qk / num lengths differ")
+    except Runaway as ex:
+        run.oracle_failure(case, f"the refinement recursion does far more work than the rule allows — {ex}")
+        return
     except Exception as ex:
         run.count("helper-missing:_create_tile")
         note = ("private helper regions._create_tile is not available with the driven signature on the tree under test "
@@ -1204,8 +1293,16 @@ def check_big(run, drv, pend, rng, seed=None):
 
 def _try_build(run, kind, params):
     """constructor failures are reported (replay = the construction parameters), not harness crashes"""
+    if run.hist.get("build:cut-off", 0) >= 2 and kind in ("catalog", "single"):
+        run.count("build:skipped-after-two-cut-offs")      # the runaway is reported (with replays); no need to sit through more
+        return None
     try:
         return _build(kind, params)
+    except Runaway as ex:
+        run.count("build:cut-off")
+        run.oracle_failure(dict(kind=kind, params=params, check="build"),
+                           f"the implementation creates far more tiles than the refinement rule allows, or does not finish — {ex}")
+        return None
     except Exception as ex:
         p = params if len(str(params)) < 4000 else {k: v for k, v in params.items() if k != "keys"}
         run.oracle_failure(dict(kind=kind, params=params, check="build"),
